@@ -66,9 +66,13 @@ def attach_records(rep: Report, cases: list) -> None:
     rep.family("result-records-of-witness-packings", n_rec, n_rec)
 
 
-def guillotine(rng: random.Random, max_side: int, k: int, cuts: int):
-    """k bins dissected by guillotine cuts; returns (W, H, items, witness_rows, k')."""
+def guillotine(rng: random.Random, max_side: int, k: int, cuts: int, exact: int = 0):
+    """k bins dissected by guillotine cuts; returns (W, H, items, witness_rows, k').
+    exact = s > 0: no trims, no drops, every coordinate scaled by s - the pieces tile the k bins completely and all
+    sides are multiples of s, so sums of piece areas are exact multiples of the bin area."""
     W, H = rng.randint(1, max_side), rng.randint(1, max_side)
+    if exact:
+        W, H = max(W, 2), max(H, 2)
     pieces = [[b, 0, 0, W, H] for b in range(1, k + 1)]        # bin, l, b, r, t
     for _ in range(cuts):
         cand = [p for p in pieces if (p[3] - p[1] > 1) or (p[4] - p[2] > 1)]
@@ -93,7 +97,7 @@ def guillotine(rng: random.Random, max_side: int, k: int, cuts: int):
     # trims and drops keep packability
     out = []
     for p in pieces:
-        u = rng.random()
+        u = 1.0 if exact else rng.random()
         if u < 0.08 and len(pieces) > k:
             continue                                   # piece dropped (bin may become empty)
         if u < 0.25 and p[3] - p[1] > 1:
@@ -103,6 +107,9 @@ def guillotine(rng: random.Random, max_side: int, k: int, cuts: int):
         out.append(p)
     if not out:
         out = [pieces[0]]
+    if exact:
+        W, H = W * exact, H * exact
+        out = [[p[0]] + [v * exact for v in p[1:]] for p in out]
     used = sorted({p[0] for p in out})
     ren = {b: i + 1 for i, b in enumerate(used)}
     types = {}
@@ -181,7 +188,11 @@ def run(prop: str, tier: str, seed: int) -> int:
     seen = set()
     for k in range(n_g):
         kb = rng.choice([1, 1, 2, 2, 3, 4, 5])
-        W, H, items, rows, kk = guillotine(rng, rng.choice([4, 6, 10, 16, 30]), kb, rng.randint(0, 14))
+        if k % 5 == 4:     # bins tiled completely by pieces whose sides are multiples of s (often equal squares)
+            W, H, items, rows, kk = guillotine(rng, rng.choice([2, 2, 3, 4]), kb, rng.choice([3, 6, 10, 40]),
+                                               exact=rng.choice([1, 2, 5, 7]))
+        else:
+            W, H, items, rows, kk = guillotine(rng, rng.choice([4, 6, 10, 16, 30]), kb, rng.randint(0, 14))
         try:
             inst = bp.make_instance(W, H, items)
         except ValueError as ex:
